@@ -162,8 +162,12 @@ def oracle_program(prog):
     viol = []
     snaps = {}
 
+    srcinfo = {}
+
     def hook(when, k, st, env):
         live = {i: r for i, r in enumerate(env[:k]) if not isinstance(r, tuple)}
+        if when == "after" and st["op"] == "source" and not isinstance(env[k], tuple):
+            srcinfo[k] = source_items(env[k])
         if when == "before":
             snaps.clear()
             for i, a in live.items():
@@ -184,9 +188,7 @@ def oracle_program(prog):
             if isinstance(r1, tuple) != isinstance(r2, tuple):
                 viol.append(({"kind": "not-deterministic", "what": "outcome"}, f"statement {k} succeeded in one build and failed in the other", k))
             continue
-        n1 = [getattr(x, "name", None) or str(x) for x in (r1.nodes.data.flat if r1.nodes.data.shape else [r1.nodes.data.item()])]
-        n2 = [getattr(x, "name", None) or str(x) for x in (r2.nodes.data.flat if r2.nodes.data.shape else [r2.nodes.data.item()])]
-        n1 = [str(x) for x in (r1.nodes.data.flat if r1.nodes.data.shape else [r1.nodes.data.item()])] if False else _names(r1)
+        n1 = _names(r1)
         n2 = _names(r2)
         if n1 != n2:
             viol.append(({"kind": "not-deterministic", "what": "names"}, f"statement {k} {prog['stmts'][k]}: two builds of the same program give different node names", k))
@@ -206,6 +208,7 @@ def oracle_program(prog):
                              f"two nodes named {name[:24]}… denote different computations ({cause}): "
                              f"{_describe(first)} vs {_describe(other)}", k))
                 break
+    prog["_srcinfo"] = srcinfo
     return env, viol
 
 
@@ -261,7 +264,10 @@ def model_names(progs, envs):
             metas.append((prog, nodes, recs, [], str(e)))
             lines.append(json.dumps({"nodes": [], "sources": []}))
             continue
-        srcs = [source_items(r) for st, r in zip(prog["stmts"], env) if st["op"] == "source" and not isinstance(r, tuple)]
+        info = prog.get("_srcinfo")
+        if info is None:
+            info = {k: source_items(r) for k, (st, r) in enumerate(zip(prog["stmts"], env)) if st["op"] == "source" and not isinstance(r, tuple)}
+        srcs = [info[k] for k in sorted(info)]
         lines.append(json.dumps({"nodes": recs, "sources": [[[f, idx] for f, idx, _ in s] for s in srcs]}))
         metas.append((prog, nodes, recs, srcs, None))
     outs = lean_drive("C14", lines)
@@ -316,6 +322,7 @@ def correspond(ctx):
     for _ in range(n):
         progs.append(gen_program(ctx.rng, max_ops=ctx.budget(4, 6)))
     envs = []
+    reported = set()
     for p in progs:
         try:
             env, viol = oracle_program(p)
@@ -326,6 +333,7 @@ def correspond(ctx):
         envs.append(env)
         nontrivial = sum(1 for st, r in zip(p["stmts"], env) if st["op"] != "source" and not isinstance(r, tuple)) >= 2
         ctx.case({"stmts": p["stmts"][:8]}, nontrivial=nontrivial)
+        ctx.count("depth:%d" % _depth(p))
         ctx.count("programs")
         for st, r in zip(p["stmts"], env):
             ctx.count("op:" + st["op"])
@@ -333,19 +341,27 @@ def correspond(ctx):
                 ctx.count("equal-name-callables")
             if st["op"] in ("arith", "join") and "b" in st and not isinstance(r, tuple):
                 ctx.count("binary_between_actions_ok")
-        seen = set()
         for sig, text, k in viol:
             key = json.dumps(sig, sort_keys=True)
-            if key in seen:
-                continue
-            seen.add(key)
             ctx.count("oracle:" + sig["kind"])
-            ctx.violation(sig, {"prog": _shrink(p, k, sig)}, text)
+            if key in reported:
+                continue
+            reported.add(key)
+            ctx.violation(sig, {"prog": _clean(_shrink(p, k, sig))}, text)
     bad = model_names(progs, envs)
     ctx.traces += len(progs)
     ctx.count("nodes_renamed_by_model", sum(len(_safe_nodes(e)) for e in envs))
     for prog, case, model, impl in bad:
         ctx.disagree("node-name", {"stmts": prog["stmts"][:10], **case}, model, impl)
+
+
+def _clean(prog):
+    return {k: v for k, v in prog.items() if not k.startswith("_")}
+
+
+def _depth(p):
+    from ekw.props.c13 import _depth as d13
+    return d13(p)
 
 
 def _safe_nodes(env):
@@ -364,7 +380,7 @@ def search(ctx, why):
             continue
         ctx.count("search_programs")
         for sig, text, k in viol[:2]:
-            ctx.violation(sig, {"prog": _shrink(p, k, sig)}, text)
+            ctx.violation(sig, {"prog": _clean(_shrink(p, k, sig))}, text)
 
 
 def oracle_only(ctx):
